@@ -19,6 +19,7 @@ const (
 	scSendParkedCloseSendBehind    // stream: MsgSend parked, CloseSend() waiting behind it
 	scSendParkedRecvBlocked        // stream: MsgSend parked and MsgRecv blocked
 	scIdleThenOps                  // nothing in flight at cancel time; operations issued afterwards
+	scRecvBlockedWritesStall       // stream: MsgRecv blocked; from the cancel on the transport accepts no writes
 	numScen
 )
 
@@ -59,7 +60,7 @@ func VerifH_CancelUnblocks() {
 		stream, err = conn.NewStream(ctx, "rpc", enc)
 		vrt.Assert(err == nil && stream != nil, "NewStream succeeds on a fresh connection")
 		switch scen {
-		case scRecvBlocked:
+		case scRecvBlocked, scRecvBlockedWritesStall:
 			go func() { err1 = stream.MsgRecv(&out, enc); done1 = true }()
 		case scSendParked:
 			tr.Gate = &gate
@@ -94,12 +95,20 @@ func VerifH_CancelUnblocks() {
 	vrt.Cover("blocked-before-cancel")
 
 	// ---- the RPC's context is cancelled; no cooperation from peer or transport ----
+	if scen == scRecvBlockedWritesStall {
+		tr.Gate = &gate // whatever the cancel wants to write parks in the transport
+	}
 	ctx.Cancel(context.Canceled)
 	vrt.Quiesce()
+	if scen == scRecvBlockedWritesStall {
+		vrt.Assert(done1 && err1 == context.Canceled, "a blocked receive returns the context's error at once, also while the transport accepts no writes")
+		gate = true
+		vrt.Quiesce()
+	}
 
 	vrt.Assert(done1 && (!two || done2), "every blocked call returns after the context is cancelled")
 	switch scen {
-	case scInvokeWaitingResponse, scRecvBlocked:
+	case scInvokeWaitingResponse, scRecvBlocked, scRecvBlockedWritesStall:
 		vrt.Assert(err1 == context.Canceled, "a blocked receive reports the context's error")
 	case scInvokeParkedInWrite, scSendParked:
 		vrt.Assert(err1 != nil, "a blocked send fails")
